@@ -96,7 +96,7 @@ class HTTPProtocol(BaseGopherProtocol):
             self.filenotfound(str(e))
         except IOError as e:
             GopherExceptions.log(e, self, None)
-            self.filenotfound(e.args[1])
+            self.filenotfound(e.strerror or str(e))
 
     def handlerwrite(self, wfile):
         self.handler.write(wfile)
